@@ -11,6 +11,7 @@ import (
 	keystoreV2 "github.com/cossacklabs/acra/keystore/v2/keystore"
 	"github.com/cossacklabs/acra/keystore/v2/keystore/filesystem/backend"
 
+	"verif/harness/internal/rig/fakeredis"
 	"verif/harness/internal/rig/ksdump"
 	"verif/harness/internal/rig/ksrig"
 )
@@ -41,6 +42,8 @@ type writer interface {
 //	kind "v1"    : directory + master key, filesystem.Storage interposed
 //	kind "v2mem" : in-memory back end, api.Backend interposed
 //	kind "v2dir" : directory back end, api.Backend interposed (every handle opens its own DirectoryBackend, like a restarted process)
+//	kind "v1redis" / "v2redis" : Acra's filesystem.RedisStorage / backend.RedisBackend on a rig/fakeredis server of its own
+//	                (redis.go); every handle opens its own connection pool, like a restarted process
 type world struct {
 	kind    string
 	dir     string
@@ -49,9 +52,13 @@ type world struct {
 	cache   int
 	mem     *backend.InMemory
 	keys    ksrig.V2Keys
+	srv     *fakeredis.Server // Redis kinds
 }
 
-func (w *world) v2() bool { return w.kind != "v1" }
+func isV1(kind string) bool    { return kind == "v1" || kind == "v1redis" }
+func isRedis(kind string) bool { return kind == "v1redis" || kind == "v2redis" }
+
+func (w *world) v2() bool { return !isV1(w.kind) }
 
 type handle struct {
 	w     *world
@@ -63,9 +70,15 @@ type handle struct {
 	be    *ksrig.FaultBackend // v2, nil for plain handles
 	enc   keystore.KeyEncryptor
 	close func()
+	rst   filesystem.Storage // v1redis: the RedisStorage of this handle (unwrapped)
+	cmd   *cmdInjector       // Redis kinds, command-level fault injection (redis.go); nil otherwise
 }
 
 func (h *handle) setPlan(p ksrig.FaultPlan) {
+	if h.cmd != nil {
+		h.cmd.arm(p)
+		return
+	}
 	if h.fs != nil {
 		h.fs.SetPlan(p)
 	}
@@ -75,6 +88,9 @@ func (h *handle) setPlan(p ksrig.FaultPlan) {
 }
 
 func (h *handle) calls() []ksrig.FaultCall {
+	if h.cmd != nil {
+		return h.cmd.Calls()
+	}
 	if h.fs != nil {
 		return h.fs.Calls()
 	}
@@ -85,6 +101,9 @@ func (h *handle) calls() []ksrig.FaultCall {
 }
 
 func (h *handle) fired() bool {
+	if h.cmd != nil {
+		return h.cmd.Fired()
+	}
 	if h.fs != nil {
 		return h.fs.Fired()
 	}
@@ -98,6 +117,9 @@ func (h *handle) fired() bool {
 func (h *handle) storage() filesystem.Storage {
 	if h.fs != nil {
 		return h.fs
+	}
+	if h.rst != nil {
+		return h.rst
 	}
 	return &filesystem.DummyStorage{}
 }
@@ -125,6 +147,8 @@ func newWorld(kind string, cache int, noLinks bool) *world {
 	case "v2dir":
 		w.dir = ksrig.ScratchDir("c08-v2")
 		w.keys = ksrig.NewV2Keys()
+	case "v1redis", "v2redis":
+		newRedisWorld(w)
 	default:
 		panic(kind)
 	}
@@ -151,11 +175,19 @@ func (w *world) clone() *world {
 		if err := ksrig.FaultCopyTree(w.dir, c.dir); err != nil {
 			panic(err)
 		}
+	case "v1redis", "v2redis":
+		c.srv = fakeredis.StartWith(w.srv.Snapshot())
+		c.srv.SetLogging(false)
 	}
 	return &c
 }
 
 func (w *world) dispose() {
+	if w.srv != nil {
+		redisNoteDispose(w)
+		w.srv.Close()
+		return
+	}
 	if w.dir != "" {
 		os.RemoveAll(w.dir)
 	}
@@ -180,6 +212,8 @@ func (w *world) files() map[string]int {
 		for p, d := range st {
 			out[p] = len(d)
 		}
+	case "v1redis", "v2redis":
+		return w.redisFiles()
 	}
 	return out
 }
@@ -193,11 +227,15 @@ func (nopCloseBackend) Close() error { return nil }
 func (w *world) open(onCrash func(*world)) *handle {
 	snap := func() {
 		if onCrash != nil {
-			onCrash(w.clone())
+			s := w.clone()
+			s.settle()
+			onCrash(s)
 		}
 	}
 	h := &handle{w: w, close: func() {}}
 	switch w.kind {
+	case "v1redis", "v2redis":
+		w.openRedis(h, snap, true)
 	case "v1":
 		fs := ksrig.NewFaultStorage(&filesystem.DummyStorage{}, w.dir, snap)
 		fs.NoHardLinks = w.noLinks
@@ -235,6 +273,8 @@ func (w *world) open(onCrash func(*world)) *handle {
 func (w *world) openPlain() *handle {
 	h := &handle{w: w, close: func() {}}
 	switch w.kind {
+	case "v1redis", "v2redis":
+		w.openRedis(h, nil, false)
 	case "v1":
 		var ks *filesystem.KeyStore
 		var err error
